@@ -194,6 +194,8 @@ type a18Gen struct {
 	r       *Rng
 	p       *a18GProg
 	counter int
+	reuse   bool      // while the old program is generated: repeat earlier type spellings now and then,
+	seen    []*a18GTy // so that the same type occurs at several places (constant, field, argument, return …)
 }
 
 func (g *a18Gen) fresh(prefix string) string {
@@ -326,6 +328,17 @@ func (g *a18Gen) include(name string, collide []string) *a18GInc {
 }
 
 func (g *a18Gen) ty(p *a18GProg, depth int, upToTypedef int) *a18GTy {
+	if g.reuse && upToTypedef < 0 && len(g.seen) > 0 && g.r.Chance(22) {
+		return g.seen[g.r.Intn(len(g.seen))].clone()
+	}
+	t := g.ty1(p, depth, upToTypedef)
+	if g.reuse && upToTypedef < 0 {
+		g.seen = append(g.seen, t)
+	}
+	return t
+}
+
+func (g *a18Gen) ty1(p *a18GProg, depth int, upToTypedef int) *a18GTy {
 	r := g.r
 	c := r.Intn(100)
 	pool := g.namedPool(p, upToTypedef, r.Chance(10))
@@ -428,7 +441,7 @@ func (g *a18Gen) prefix() []a18GPTok {
 }
 
 func a18GenProg(r *Rng) *a18GProg {
-	g := &a18Gen{r: r, p: &a18GProg{}}
+	g := &a18Gen{r: r, p: &a18GProg{}, reuse: true}
 	p := g.p
 	for i, n := 0, r.Intn(4); i < n; i++ {
 		e := &a18GEnum{name: g.fresh("En")}
@@ -525,14 +538,28 @@ func a18GenProg(r *Rng) *a18GProg {
 	for i, n := 0, r.Intn(3); i < n; i++ {
 		p.nss = append(p.nss, &a18GNS{langs[i], "pkg" + strconv.Itoa(r.Intn(5))})
 	}
-	for i, n := 0, r.Intn(3); i < n; i++ {
-		if r.Bool() {
-			p.consts = append(p.consts, &a18GConst{g.fresh("CK"), &a18GTy{kind: a18TyBase, name: "i32"}, strconv.Itoa(r.Intn(100))})
-		} else {
-			p.consts = append(p.consts, &a18GConst{g.fresh("CK"), &a18GTy{kind: a18TyBase, name: "string"}, a18StrTok(a18LitWords[r.Intn(len(a18LitWords))])})
-		}
+	// constants of any type (the parser does not check a value against its type), often of a type
+	// that is also used by a field, argument or return type
+	for i, n := 0, r.Intn(4); i < n; i++ {
+		t := g.ty(p, 0, -1)
+		p.consts = append(p.consts, &a18GConst{g.fresh("CK"), t, a18ConstValueFor(r, t)})
 	}
 	return p
+}
+
+// a18ConstValueFor: a value token that renders to a literal the grammar accepts for the type.
+func a18ConstValueFor(r *Rng, t *a18GTy) string {
+	switch t.kind {
+	case a18TyList, a18TySet:
+		return "[]"
+	case a18TyMap:
+		return "{}"
+	case a18TyBase:
+		if t.name == "string" || t.name == "binary" {
+			return a18StrTok(a18LitWords[r.Intn(len(a18LitWords))])
+		}
+	}
+	return strconv.Itoa(r.Intn(100))
 }
 
 func a18QualifiedServices(p *a18GProg) []string {
@@ -1537,14 +1564,8 @@ func init() {
 			return e.rec("const-value-change", false, "-", 0)
 		case c == 2:
 			k := n.consts[e.r.Intn(len(n.consts))]
-			if k.ty.name == "string" {
-				return false
-			}
-			if k.ty.name == "i32" {
-				k.ty = &a18GTy{kind: a18TyBase, name: "i64"}
-			} else {
-				k.ty = &a18GTy{kind: a18TyBase, name: "i32"}
-			}
+			k.ty = e.g.ty(e.nw, 1, -1)
+			k.value = a18ConstValueFor(e.r, k.ty)
 			return e.rec("const-type-change", false, "-", 0)
 		default:
 			i := e.r.Intn(len(n.consts))
@@ -1572,7 +1593,7 @@ type c18Case struct {
 
 func a18GenCase(r *Rng) *c18Case {
 	old := a18GenProg(r)
-	k := r.Intn(4)
+	k := r.Intn(5)
 	return a18EditCase(r, old, r.Intn(3), k)
 }
 
